@@ -6,7 +6,7 @@ CFG = dict(
                'operators, precedence and parentheses; negation; all six comparisons) parse_rule (show_rule r) = Some r, proved by structural '
                'induction over a CHARACTER-level model of the real parser (a cascade of string splits) and printer; C09_arith_roundtrip is '
                'the full statement for arithmetic; C09_paths_agree_partial: direct / inline / session / persistent submission all yield the '
-               'same rule (the persistent path through the modelled lossy stored form). The full property is refuted for the pinned tree by six '
+               'same rule (the persistent path through the modelled lossy stored form). The full property is refuted for the pinned tree by seven '
                'machine-checked witnesses (C09_refuted_*), one per recorded class. The model is tied to the code on every run: grammar-generated '
                'and mutated rule texts go through the real parse_rule -> Display -> parse_rule and the three results are compared with the model '
                'inside Coq; a sample of evaluable rules is submitted through the engine and the Handler on all paths (incl. restart).',
@@ -16,7 +16,7 @@ CFG = dict(
                'model agrees with the Rust code by correspondence, not by proof.',
     bin='c09', n_quick=2000, n_thorough=40000,
     corr_name='Model/Syntax.v (parse_rule, show_rule) vs inputlayer::parser::parse_rule / Display',
-    rule='hand-written corpus (65 texts incl. every known-finding witness and the two repaired defects) + seeded grammar-based rule texts '
+    rule='hand-written corpus (67 texts incl. every known-finding witness and the two repaired defects) + seeded grammar-based rule texts '
          '(all term kinds; float lexemes integral/exponent/negative/huge/subnormal/inf/nan; strings incl. quotes, backslashes, unicode and the '
          'splitter characters; nested arithmetic with redundant parentheses and spacing noise; negation; comparisons; standard and ranking '
          'aggregates; function calls; hnsw_nearest) + 1/7 character-mutated texts; every 20th case is an end-to-end submission of an evaluable '
